@@ -354,6 +354,14 @@ def gen_cases(tier, rng):
         cases.append(mk_indexed(0, h5, [], tag="malformed:c=0"))
         cases.append(mk_plain("categorical", "int8", h5, [[1]], key=[("a", 1), ("b", 1000)], tag="malformed:key-overflow"))
         cases.append(mk_plain("categorical", "uint8", h5, [[1]], key=[("a", -1)], tag="malformed:key-overflow"))
+    # a cleared field refilled: before the parts of the case are written, the same rows are written (twice, in parts), and the
+    # field is cleared — `f.data.clear()`; what is read afterwards must be exactly what was written after the clear
+    k = 0
+    for c in cases:
+        if c.get("op") in ("c01_plain", "c01_indexed") and "rounds" not in c and not c.get("write") and len(c.get("parts", [])) >= 2:
+            k += 1
+            if k % 3 == 0:
+                c["_prior"] = True
     return cases
 
 
@@ -502,6 +510,18 @@ def impl_indexed(e, case):
     elif case.get("write"):
         f.data.write(case["parts"][0])
     else:
+        if case.get("_prior"):
+            for rep in range(2):
+                for p in case["parts"]:
+                    f.data.write_part(list(reversed(p)))
+            f.data.complete()
+            f.data.clear()
+            if obs is not None:
+                # the second field object is obtained (and read) while the column is empty, as in every other case: an object
+                # held since BEFORE another object's clear() keeps the unlinked datasets (clear() re-creates them) — an
+                # observation recorded in DESIGN 7, outside what the property states (it speaks of writes, not of clear())
+                obs = s.get(df._h5group["f"])
+                _ = (len(obs), obs.data[:], obs.indices[:], obs.values[:])
         for p in case["parts"]:
             f.data.write_part(p)
         f.data.complete()
@@ -602,6 +622,15 @@ def impl_plain(e, case):
     if case.get("write"):
         f.data.write(_decode(np, case, case["parts"][0]))
     else:
+        if case.get("_prior"):
+            for rep in range(2):
+                for p in case["parts"]:
+                    f.data.write_part(_decode(np, case, p)[::-1])
+            f.data.complete()
+            f.data.clear()
+            if obs is not None:
+                obs = s.get(df._h5group["f"])        # see impl_indexed
+                _ = (len(obs), obs.data[:])
         for p in case["parts"]:
             f.data.write_part(_decode(np, case, p))
         f.data.complete()
